@@ -14,7 +14,7 @@ from ..ref import ilp_ref
 
 TOL = 1e-4
 TARGETS = (0, 0.5, 1, 1.4, 2)
-PENS = ("zero", "tenth", "mixed")
+PENS = ("zero", "tenth", "mixed", "fine")
 
 
 def pen_vector(kind, n):
@@ -22,6 +22,8 @@ def pen_vector(kind, n):
         return (0.0,) * n
     if kind == "tenth":
         return (0.1,) * n
+    if kind == "fine":      # near-ties: objectives that differ by less than the solution precision
+        return tuple([0.0, 0.004, 0.009, 0.002, 0.0005, 0.006][:n])
     return tuple([1.0, 0.1, 0.0, 0.5, 0.3, 0.7][:n])
 
 
